@@ -131,6 +131,7 @@ Section Rot.
     else
       let s := nsqrt N (1 - c * c) in
       if nltb N (nabs N s) eps then
+        if nltb N c 0 then q1 else     (* 439d558: q2 is (almost) -q1, the same rotation *)
         let h := 1 / two in
         mkQ (qix q1 * h + qix q2 * h) (qiy q1 * h + qiy q2 * h) (qiz q1 * h + qiz q2 * h) (qr q1 * h + qr q2 * h)
       else
